@@ -472,9 +472,13 @@ class The(ResultQuantifier[T]):
     """
 
     def evaluate(self) -> TypingUnion[Iterable[T], T, UnificationDict]:
-        result = self._evaluate_()
-        result = self._process_result_(result)
-        self._reset_cache_()
+        try:
+            result = self._evaluate_()
+            result = self._process_result_(result)
+        finally:
+            # also when NoSolutionFound/MultipleSolutionFound is raised, otherwise the next evaluation starts from
+            # the duplicate-tracking state this one left behind.
+            self._reset_cache_()
         return result
 
     def _evaluate__(self, sources: Optional[Dict[int, HashedValue]] = None, yield_when_false: bool = False) -> Iterable[Dict[int, HashedValue]]:
